@@ -607,5 +607,6 @@ func extractC16() *lean {
 	l.def("updateServiceCalls", "List String", leanStrList(updCalls), updCalls)
 	l.def("updateSkipsExisting", "Bool", c16Bool(skipExisting), skipExisting)
 	c16NodeFacts(l) // deepening round: node layer (c16node.go)
+	c16Round3Facts(l) // round 3: client loop guards, add arguments, seed draw (c16r3.go)
 	return l
 }
